@@ -131,6 +131,7 @@ def run(F, R, ctx):
                     "the fast path exactly on the owner branch")
     if "steel_rc" not in F.crates:
         raise CheckError("facts for steel_rc missing")
+    owner_count_positive_rule(F, R)
     rcfns = {n: f for n, f in F.fns.items() if n.startswith("steel_rc::")}
 
     # ---------------- a
@@ -154,7 +155,8 @@ def run(F, R, ctx):
             R.inst("C05.a", "%s (runs from the owner's queue)" % sn, True, sample=True)
             continue
         # otherwise: every access dominated by true edge of ThreadId::eq(.., current_thread())
-        eqs = fn.call_blocks(r"\{impl PartialEq(<ThreadId>)? for ThreadId\}::eq$")
+        eqs = fn.call_blocks(r"\{impl PartialEq(<ThreadId>)? for ThreadId\}::eq$") + \
+            fn.call_blocks(r"\{impl PartialEq(<Option<T>>)? for Option<T>\}::eq$")
         trues = []
         for b in eqs:
             t, f = lib.bool_branch(fn, b)
@@ -416,11 +418,14 @@ def run(F, R, ctx):
         fb = fn.call_blocks(r"\{impl RcBox<T>\}::%s$" % fast)
         sb_ = fn.call_blocks(r"\{impl RcBox<T>\}::%s$" % slow)
         cur = fn.call_blocks(r"\{impl ThreadId\}::current_thread$")
+        # the fast path only on the owner's edge; a non-owner (the false edge) reaches the slow path and never the fast one. The
+        # owner may take the slow path as well (its own count is 0 and the reference it drops was cloned by another thread)
         ok = bool(cur) and bool(fb) and bool(sb_) and all(dominated_by_any(fn, b, tt) for b in fb) and \
-            all(dominated_by_any(fn, b, ff) for b in sb_)
+            all(f_ is not None and not (set(fb) & (fn.reachable_from([f_]) | {f_})) and
+                bool(set(sb_) & (fn.reachable_from([f_]) | {f_})) for f_ in ff)
         R.inst("C05.e", "RcBox::%s / fast path exactly on the owner branch" % nm, ok,
-               "RcBox::%s does not select %s on the `owner == current thread` edge and %s on the other edge: a non-owner "
-               "would update the non-atomic counter (or the owner would skip it)" % (nm, fast, slow), fn.loc(), sample=True)
+               "RcBox::%s does not keep %s to the `owner == current thread` edge, or a non-owner does not reach %s: a non-owner "
+               "would update the non-atomic counter (or skip the shared one)" % (nm, fast, slow), fn.loc(), sample=True)
         others = [c for c in callers.get("steel_rc::{impl RcBox<T>}::%s" % fast, ()) if not c.endswith("::" + nm)]
         R.inst("C05.e", "RcBox::%s is called only from RcBox::%s" % (fast, nm), not others,
                "%s (owner-only) is also called from %s without the owner test" % (fast, ", ".join(lib.short_name(c) for c in others)),
@@ -528,3 +533,62 @@ def queued_rule(F, R):
                "%s %s without testing the queued flag of the shared word first (or on its queued side): an object whose "
                "pointer is parked in the owner's queue becomes freeable by other threads, and the owner's next explicit merge "
                "touches freed memory" % (fn.short(), what), fn.loc(), sample=True)
+
+
+def owner_count_positive_rule(F, R):
+    R.rule("C05.u", "the owner's count is lowered only when it is positive: every subtraction from the non-atomic owner counter "
+                    "(RcWord.biased_counter) in steel-rc is dominated by a branch on a comparison of that counter — in the function "
+                    "or at every call of it. The counter can be 0 while the object is still biased to the owner (it reached 0 while "
+                    "the object sat in the owner's queue); a reference the owner drops then was cloned by another thread and is "
+                    "counted in the shared word: subtracting from 0 panics in Drop (debug) or wraps to u32::MAX (release)")
+
+    def counter_reads(fn):
+        out = []
+        for i, b in fn.calls():
+            if re.search(r"Cell<T>\}::get$", b["callee"]) and b["args"] and \
+                    any(re.search(r"biased_counter", s_) for s_ in lib.alias_sources(fn, b["args"][0])):
+                out.append((i, b["dest"]))
+        return out
+
+    def guarded(fn, site):
+        dom = fn.dominators()
+        reads = [d for i, d in counter_reads(fn) if i in dom.get(site, ())]
+        if not reads:
+            return False
+        taint = lib.tainted_locals(fn, reads)
+        for sb in dom.get(site, ()):
+            blk = fn.blocks[sb]
+            if sb == site or blk["k"] != "switch":
+                continue
+            if not any(x in taint for x in lib.TOK.findall(str(blk.get("place", "")))):
+                continue
+            sides = [t for t in set(blk["s"]) if t == site or site in fn.reachable_from([t], avoid={sb})]
+            if len(sides) == 1:
+                return True
+        return False
+    n = 0
+    for name, fn in sorted(F.fns.items()):
+        if not name.startswith("steel_rc::"):
+            continue
+        reads = {d for _, d in counter_reads(fn)}
+        if not reads:
+            continue
+        taint = lib.tainted_locals(fn, sorted(reads))
+        for i, b in enumerate(fn.blocks):
+            if b["c"]:
+                continue
+            subs = [e for e in b["e"] if e[0] == "binop" and e[1] in ("Sub", "SubWithOverflow") and
+                    any(x in taint for x in lib.TOK.findall(str(e[5])))]
+            if not subs:
+                continue
+            n += 1
+            ok = guarded(fn, i)
+            if not ok:
+                callers = [(g, j) for g in F.fns.values() if g.name.startswith("steel_rc::") for j, cb in g.calls() if cb["callee"] == name]
+                ok = bool(callers) and all(guarded(g, j) for g, j in callers)
+            R.inst("C05.u", "%s / the owner counter is compared before it is lowered" % fn.short(), ok,
+                   "%s subtracts from RcWord.biased_counter (line %s) and neither it nor every caller tested the counter first: with "
+                   "the owner's count at 0 and the object still biased to the owner, dropping a reference another thread cloned "
+                   "underflows it (owner: x, y = x.clone(); a thread drops y; another thread sends three clones of x back; the owner "
+                   "drops them: the third drop panics)" % (fn.short(), subs[0][3]), fn.loc(subs[0][3]), sample=True)
+    R.floor("C05.u", "subtractions from the owner counter", n, 1)
